@@ -115,6 +115,11 @@ AEditCtrlptsW(i, k) ==
   /\ "edit_ctrlptsw" \in Acts /\ obj.rat /\ i <= Len(obj.P)
   /\ LET pt == GenNet(Len(obj.P), CDim(obj) - 1, TRUE, 7 + k)[i] IN
      Step([a |-> "edit_ctrlptsw", i |-> i, k |-> k, pt |-> pt], [obj EXCEPT !.P[i] = pt])
+\* q = obj.ctrlpts; q[i] = pt; obj.ctrlpts = q on a non-rational object: the list the getter returned is edited and assigned back
+AEditCtrlpts(i, k) ==
+  /\ "edit_ctrlpts" \in Acts /\ ~obj.rat /\ i <= Len(obj.P)
+  /\ LET pt == GenNet(Len(obj.P), CDim(obj), FALSE, 7 + k)[i] IN
+     Step([a |-> "edit_ctrlpts", i |-> i, k |-> k, pt |-> pt], [obj EXCEPT !.P[i] = pt])
 \* cp = copy.deepcopy(obj): one of the two objects has all its weights multiplied by c and its views read, the history
 \* continues on the other one (keep = "orig" | "copy"), whose definition is that of obj: copies share no state
 AFork(c, keep) ==
